@@ -100,6 +100,10 @@ fn read_stream_lemma(n: usize, boundary: &'static str, delim: &'static [u8]) {
     forget(p);
 }
 
+/// NOTE: only the instances with an EMPTY buffer are registered (c15_read_len_empty).  With data in
+/// the buffer `read_len` reaches `PayloadBuffer::unprocessed` (BytesMut::from + extend_from_slice with
+/// lengths CBMC treats as symbolic) and every instance tried ran out of memory (24-55 GB), also with a
+/// concrete size; sized fields with data are therefore OUTSIDE the claim.
 /// sized field: exactly `size` bytes, then end; eof before that is an error; remainder pushed back.
 /// `csize`: concrete size (None = symbolic u64).  With a symbolic size CBMC has to encode the
 /// (dead, but not syntactically) `unprocessed()` push-back with symbolic lengths: >50 GB measured.
@@ -133,7 +137,6 @@ fn read_len_lemma(n: usize, csize: Option<u64>) {
         Poll::Ready(Some(Err(_))) => assert!(eof && n == 0 && size0 > 0, "Incomplete iff eof before size"),
         Poll::Pending => assert!(!eof && n == 0 && size0 > 0 && size == size0),
     }
-    kani::cover!(matches!(r, Poll::Ready(Some(Ok(_)))) && p.buf.len() > 0, "read_len: remainder pushed back");
     kani::cover!(matches!(r, Poll::Ready(Some(Err(_)))), "read_len: incomplete");
     kani::cover!(true, "harness end reached");
     forget(r);
@@ -244,33 +247,10 @@ fn c15_read_stream_boundary2_b8_t() {
 }
 #[kani::proof]
 #[kani::unwind(7)]
-fn c15_read_len_exact() {
-    read_len_lemma(1, Some(1));
-    read_len_lemma(2, Some(2));
-}
-#[kani::proof]
-#[kani::unwind(7)]
-fn c15_read_len_short_buffer() {
-    read_len_lemma(1, Some(5));
-    read_len_lemma(3, Some(7));
-}
-#[kani::proof]
-#[kani::unwind(7)]
-fn c15_read_len_long_buffer() {
-    read_len_lemma(2, Some(1));
-    read_len_lemma(3, Some(2));
-}
-#[kani::proof]
-#[kani::unwind(7)]
 fn c15_read_len_empty() {
     read_len_lemma(0, Some(0));
     read_len_lemma(0, Some(3));
     read_len_lemma(1, Some(0));
-}
-#[kani::proof]
-#[kani::unwind(7)]
-fn c15_read_len_symbolic_size_b1_t() {
-    read_len_lemma(1, None);
 }
 #[kani::proof]
 #[kani::unwind(7)]
